@@ -34,6 +34,10 @@ G(name="b32_5to8", harness="h_codec.c", defs=["CODEC=32"], entry="h_5to8", enfor
 G(name="b32_8to5", harness="h_codec.c", defs=["CODEC=32"], entry="h_8to5", enforce=["b32_8to5"], replace=["base32_reverse_init"], replay={"entry": "w_8to5", "unwind": 33},
   props={"C07": "contract", "C05": "safety", "C06": "safety"}, what="b32_8to5 is the Base32 reverse map for all int arguments (incl. negative char values), result 0..31")
 
+# pointer_arithmetic = "pointer relation/difference outside object bounds": the parsers move the
+# cursor up to one byte past the end+1 of the datagram and compare before dereferencing; with the
+# datagram modelled as an exact-size object that is reported although the real buffer is 64 KB
+PARSE_DISCARD = ["pointer_arithmetic"]
 PARSE_CHECKS = ["--bounds-check", "--pointer-check", "--div-by-zero-check", "--undefined-shift-check",
                 "--signed-overflow-check", "--pointer-primitive-check"]
 G(name="readname_loop", harness="h_read.c", entry="h_readname_loop", style="legacy", enforce=["readname_loop"],
@@ -42,6 +46,36 @@ G(name="readname_loop", harness="h_read.c", entry="h_readname_loop", style="lega
   what="readname_loop on a datagram object of exactly packetlen bytes: no read outside it, writes only dst[0..length), result/cursor ranges, terminates (loop variants); the recursive call is a stub carrying the same contract")
 G(name="readname", harness="h_read.c", entry="h_readname", style="legacy", enforce=["readname"], checks=PARSE_CHECKS,
   props={"C12": "all", "C05": "safety", "C06": "safety"}, min_obl=5, what="readname = readname_loop with depth 10")
+
+for fn, pr in (("readshort", ["C12", "C05", "C06"]), ("readlong", ["C12", "C05", "C06"]), ("readdata", ["C12", "C05", "C06"]),
+               ("putbyte", ["C10", "C05", "C06"]), ("putshort", ["C10", "C05", "C06"]), ("putlong", ["C10", "C05", "C06"])):
+    G(name=fn, harness="h_read.c", entry="h_" + fn, enforce=[fn], props=dict((p, "all") for p in pr), min_obl=5, cost=2,
+      what="%s: reads/writes exactly the bytes of its field, value is the big-endian field, cursor advances by the field size" % fn)
+
+G(name="putdata", harness="h_read.c", entry="h_putdata", style="legacy", enforce=["putdata"], props={"C10": "all", "C05": "safety", "C06": "safety"}, cost=2,
+  what="putdata copies exactly len bytes to the cursor and advances it (harness style, exact-size objects)")
+
+G(name="readtxtbin", harness="h_read.c", entry="h_readtxtbin", style="legacy", enforce=["readtxtbin"], loops="read.inv", loop_fns=["readtxtbin"],
+  checks=PARSE_CHECKS, props={"C12": "all", "C05": "safety", "C06": "safety"}, min_obl=30,
+  what="readtxtbin on record data of exactly srcremain bytes: no read outside it, at most dstremain bytes written, cursor inside, terminates")
+G(name="puttxtbin", harness="h_read.c", entry="h_puttxtbin", style="legacy", enforce=["puttxtbin"], loops="read.inv", loop_fns=["puttxtbin"],
+  checks=PARSE_CHECKS, props={"C10": "all", "C05": "safety", "C06": "safety"}, min_obl=30,
+  what="puttxtbin: output tiled by length-prefixed strings of at most 252 bytes, total length exact, never beyond the space, -1 if it does not fit")
+
+G(name="dns_decode_query", harness="h_dns.c", entry="h_dns_decode", defs=["H_QR=QR_QUERY"], style="legacy", enforce=["dns_decode"], loops="dns.inv", loop_fns=["dns_decode"],
+  checks=PARSE_CHECKS, discard_cls=PARSE_DISCARD, props={"C12": "all", "C05": "safety"}, min_obl=100, timeout=600, cost=30,
+  what="dns_decode, query direction (what the server runs on every datagram): exact-size datagram, arbitrary content")
+for tname, cost in (("T_NULL", 20), ("T_PRIVATE", 20), ("T_A", 20), ("T_CNAME", 20), ("T_MX", 200), ("T_SRV", 200), ("T_TXT", 20)):
+    G(name="dns_decode_answer_" + tname, harness="h_dns.c", entry="h_dns_decode", defs=["H_QR=QR_ANSWER", "H_TYPE=" + tname], style="legacy",
+      enforce=["dns_decode"], loops="dns.inv", loop_fns=["dns_decode"], checks=PARSE_CHECKS, discard_cls=PARSE_DISCARD,
+      props={"C12": "all", "C06": "safety"}, min_obl=100, timeout=600, cost=cost, mem_gb=24,
+      what="dns_decode, answer direction (what the client runs on every reply), question type %s (case split on the value the real readshort returns for the type field): exact-size datagram, arbitrary content" % tname)
+G(name="dns_decode_answer_other", harness="h_dns.c", entry="h_dns_decode", defs=["H_QR=QR_ANSWER", "H_CASE=4"], style="legacy",
+  enforce=["dns_decode"], loops="dns.inv", loop_fns=["dns_decode"], checks=PARSE_CHECKS, discard_cls=PARSE_DISCARD,
+  props={"C12": "all", "C06": "safety"}, min_obl=100, timeout=900, cost=300, mem_gb=24,
+  what="dns_decode, answer direction, every question type other than NULL/PRIVATE/A/CNAME/MX/SRV/TXT")
+G(name="dns_get_id", harness="h_dns.c", entry="h_dns_get_id", style="legacy", enforce=["dns_get_id"], checks=PARSE_CHECKS,
+  props={"C12": "all", "C05": "safety", "C06": "safety"}, cost=1, what="dns_get_id reads the first two bytes only, 0 for short packets")
 
 LEVELS = {}
 TRUSTED_BASE = ["CBMC 6.11.0 (goto-cc front end, goto-instrument --dfcc contract instrumentation, symex)",
